@@ -261,6 +261,9 @@ def r06_2(ctx, prog, crate):
     for b in prog.lib_bodies(crate):
         if not b.path.startswith(POOL) or ".tests" in b.path or "::tests::" in b.path:
             continue
+        from lib import inline as _inl
+        if _inl.absorbed(prog, b):
+            continue    # a helper that only exists as copies inside its callers: its accesses are counted there
         for c in b.live_calls():
             if c.callee.startswith("std::sync::atomic::Atomic::") and not c.callee.endswith("::new") and "ref_count" in field_of_arg(b, c):
                 n += 1
